@@ -59,6 +59,8 @@ extern "C" int __wrap_pthread_mutex_unlock(pthread_mutex_t * m)
 static thread_local volatile long long tl_sink = 0;
 static inline void rec(int, int, long long a = 0, long long b = 0, long long c = 0, long long d = 0, long long e = 0) {tl_sink = tl_sink + a + b + c + d + e;}
 #endif
+static volatile long long g_sink = 0;
+static inline void tl_sink_use(long long v) {g_sink = g_sink + v;}
 static inline void inv(int m, long long arg = 0, long long b = 0, long long c = 0, long long d = 0) {rec(0, m, arg, b, c, d);}
 static inline void res(int m, long long a = 0, long long b = 0, long long c = 0, long long d = 0, long long e = 0) {rec(3, m, a, b, c, d, e);}
 
@@ -286,7 +288,7 @@ static void runStats(Work & w, bool var)
 }
 
 template<class C>
-static void runCheckup(Work & w, const std::string & ck, bool hasTimeout)
+static void runCheckup(Work & w, const std::string & ck, bool hasTimeout, bool neighbour = false)
 {
   const long long a = ck == "rel" ? 10 : 20, b = ck == "rel" ? 30 : 5;
   static C * c = nullptr;
@@ -305,6 +307,23 @@ static void runCheckup(Work & w, const std::string & ck, bool hasTimeout)
       }
       w.stop = true;
     });
+  // a neighbour: another check-up object of the same value type, with its own writer and reader, busy at the same time (its
+  // calls are not part of the recorded history of the object under test: objects share nothing)
+  static CheckupLowerThan<double> * other = nullptr;
+  if (neighbour) {
+    delete other;
+    other = new CheckupLowerThan<double>("neighbour", 1000.0, 2.0);
+    w.spawn([&](vh::Rng & r) {
+        tl_buf = nullptr;
+        while (!w.stop) {other->evaluate(900.0 + (double)r.range(0, 200)); if (r.coin(1, 16)) {other->timeout();}}
+      });
+    w.spawn([&](vh::Rng &) {
+        tl_buf = nullptr;
+        long long sink = 0;
+        while (!w.stop) {DiagnosticReport rep = other->getReport(); sink += (long long)rep.diagnostics.size() + (long long)rep.info.begin()->second.size();}
+        tl_sink_use(sink);
+      });
+  }
   for (int i = 0; i < w.readers; ++i) {
     w.spawn([&](vh::Rng &) {
         Thinner th(w.ops / 8);
@@ -459,6 +478,7 @@ int main(int argc, char ** argv)
   else if (k == "var") {runStats<OnlineVariance>(w, true);}
   else if (k == "ckeq") {runCheckup<CheckupEqualTo<double>>(w, "eq", true);}
   else if (k == "ckgt") {runCheckup<CheckupGreaterThan<double>>(w, "gt", true);}
+  else if (k == "ckpair") {runCheckup<CheckupGreaterThan<double>>(w, "gt", true, true);}
   else if (k == "cklt") {runCheckup<CheckupLowerThan<double>>(w, "lt", true);}
   else if (k == "rel") {runCheckup<CheckupReliability>(w, "rel", false);}
   else if (k == "rm") {runRM(w);} else if (k == "rceq") {runRC<CheckupEqualToRate>(w, "eq");}
